@@ -5,6 +5,8 @@
      op = (n0 n<t> n<isComment> x<single line> n<cap the runtime gives a reallocation>)
         | (n1 n<t> idopt) | (n2 n<t> typeopt) | (n3 n<t> z<retry>) | (n4 n<t>) Clone | (n5 n<t>) reset
         | (n7 n<t> x<line> n<cap>)  m_t.UnmarshalText("data: <line>\n\n")
+        | (n8 n<t> x<type> lineopt n<cap>)  m_t.UnmarshalText("event: <type>\n" ++ ("data: <line>\n")? ++ "\n"): an event
+          that may carry no data line at all
         | (n9 n<s>)  the ValidReplayers' clock advances by s seconds (TTL 1000 s) and GC() is called on them
         | (n6 n<t> n<replayer: 0 finite auto, 1 valid auto, 2 finite manual, 3 valid manual>)  Put; with automatic IDs the
           returned copy joins the family; with explicit IDs (and for every rejected Put) nothing at all happens to any message
@@ -26,6 +28,12 @@ Definition dec_hop (s : hrun_state) (op : val) : list hop * hrun_state :=
   | 9%N => ([], s)   (* the ValidReplayers' clock advances and they collect: no message of the family is concerned *)
   | 7%N => (* UnmarshalText("data: <line>\n\n"): reset(), then one data chunk is appended *)
            ([HReset t; HAppend t [(mkc (as_b (nth_val 2 op)) false, as_nat (nth_val 3 op))]], s)
+  | 8%N => (* reset(), the type is set, then at most one data chunk is appended *)
+           ([HReset t; HSetType t (Some (as_b (nth_val 2 op)))] ++
+            match as_opt as_b (nth_val 3 op) with
+            | Some l => [HAppend t [(mkc l false, as_nat (nth_val 4 op))]]
+            | None => []
+            end, s)
   | _ =>
       (* ensureID: a message that already has an ID is rejected (nothing happens) *)
       match nth_error (snd (hr_st s)) t with
@@ -68,6 +76,11 @@ Definition dec_vop_heap (s : vrun_state) (op : val) : list hop * vrun_state :=
   | 5%N => ([HReset t], s)
   | 9%N => ([], s)
   | 7%N => ([HReset t; HAppend t [(mkc (as_b (nth_val 2 op)) false, 0)]], s)
+  | 8%N => ([HReset t; HSetType t (Some (as_b (nth_val 2 op)))] ++
+            match as_opt as_b (nth_val 3 op) with
+            | Some l => [HAppend t [(mkc l false, 0)]]
+            | None => []
+            end, s)
   | _ =>
       match nth_error (vr_fam s) t with
       | Some m =>
